@@ -1600,7 +1600,7 @@ COLRFF = CFUNCTYPE(c_int, POINTER(Simulation), CollisionS)
 FPA = CFUNCTYPE(None, POINTER(Particle))
 
 # Check if Simulation has same size upon import. Nothing will work if there is a mismatch.
-clibrebound.reb_simulation_struct_size.res_type = c_size_t
+clibrebound.reb_simulation_struct_size.restype = c_size_t
 simulation_size_c = clibrebound.reb_simulation_struct_size()
 
 if simulation_size_c != sizeof(Simulation):
